@@ -35,6 +35,16 @@ fn gen_cases(rng: &mut Rng, tier: Tier) -> Vec<Value> {
             if i % 7 == 3 {
                 sp.objectives = gen_objectives(rng, &sp);
             }
+            // one in five: vicinity clustering (commute and parking branches of the writer)
+            if i % 5 == 4 {
+                let mut cfg = GenCfg::random(rng);
+                cfg.metric = true;
+                cfg.multi_jobs = false;
+                cfg.jobs = (8, 20);
+                let mut sp = gen_problem(rng, &cfg);
+                sp.clustering = Some(gen_clustering(rng, &sp));
+                return json!({"k": "wcluster", "sp": sp, "gens": 3 + (i % 4) * 4});
+            }
             // one in five: REQUIRED breaks (reserved times). The writer turns reserved time into break activities afterwards
             // (`insert_reserved_times_as_breaks`), which the model does not cover: those tours are judged by the break clauses of the
             // specification only (timing split, cost, break entries inside the tour's time span)
@@ -79,6 +89,7 @@ fn dump_route(problem: &vrp_core::models::Problem, route: &Route) -> Value {
     let driver = route.actor.driver.as_ref();
     let transport = problem.transport.as_ref();
     let mut prev: Option<(usize, f64)> = None;
+    let mut seen: Vec<usize> = vec![];
     let acts: Vec<Value> = route
         .tour
         .all_activities()
@@ -91,6 +102,21 @@ fn dump_route(problem: &vrp_core::models::Problem, route: &Route) -> Value {
                 ),
                 None => (0., 0.),
             };
+            // clustered routes: the vehicle may stand at an earlier location (the parking place) while the crew walks, so the
+            // leg from every location visited so far is recorded (same departure time as the writer uses)
+            let legs_from: Vec<Value> = match (prev, a.commute.is_some() || route.tour.all_activities().any(|x| x.commute.is_some())) {
+                (Some((_, dep)), true) => seen
+                    .iter()
+                    .map(|l| {
+                        json!([l, int(transport.duration(route, *l, a.place.location, TravelTime::Departure(dep))),
+                               int(transport.distance(route, *l, a.place.location, TravelTime::Departure(dep)))])
+                    })
+                    .collect(),
+                _ => vec![],
+            };
+            if !seen.contains(&a.place.location) {
+                seen.push(a.place.location);
+            }
             prev = Some((a.place.location, a.schedule.departure));
             // the demand as stored: multi-dimensional, or (one-dimensional problems) `SingleDimLoad` values the writer converts
             let dem: Option<&Demand<MultiDimLoad>> = single.and_then(|s| s.dimens.get_job_demand());
@@ -109,6 +135,10 @@ fn dump_route(problem: &vrp_core::models::Problem, route: &Route) -> Value {
                 "tags": single.and_then(|s| s.dimens.get_place_tags().cloned()).unwrap_or_default(),
                 "dem": dem_json,
                 "commute": a.commute.is_some(),
+                "legsFrom": legs_from,
+                "commuteLegs": a.commute.as_ref().map(|c| json!({
+                    "fwd": {"loc": c.forward.location, "dist": int(c.forward.distance), "dur": int(c.forward.duration)},
+                    "bwd": {"loc": c.backward.location, "dist": int(c.backward.distance), "dur": int(c.backward.duration)}})),
                 "legDur": int(leg_dur), "legDist": int(leg_dist),
             })
         })
